@@ -20,7 +20,9 @@ package main
 
 import (
 	"fmt"
+	"math"
 	"go/token"
+	"regexp"
 	"sort"
 	"strings"
 
@@ -468,6 +470,84 @@ func degenerateTest(ctx *Ctx, r *Report, rule, recv string, n int) {
 	}
 	// the opaque comparisons and the vertex pair each one looks at
 	eqs := findSub(t, func(x *Term) bool { return x.Op == "call" && strings.HasSuffix(x.S, ".Equals") })
+	if len(eqs) == 0 {
+		// the comparison is written out: decide the same statement on the closed form itself,
+		// for every assignment of {0, 1, 1.001} to the coordinates and tolerances 0 and 0.01
+		ev2 := newEval(ctx)
+		res2, _ := ev2.evalRoot(fn)
+		t2, _ := res2.(*Term)
+		if t2 == nil || ev2.Exceeded {
+			r.undecided(rule, key, fn.Pos(), "result is not a closed form")
+			return
+		}
+		tolN := paramName(fn, 1)
+		// coordinate atoms: <anything>[v].X/Y/Z
+		reCoord := regexp.MustCompile(`\[(\d)\]\.([XYZ])$`)
+		atomOf := map[[2]int]string{}
+		dim := 2
+		for _, a := range findSub(t2, func(x *Term) bool { return x.Op == "a" }) {
+			if m := reCoord.FindStringSubmatch(a.S); m != nil {
+				v := int(m[1][0] - '0')
+				ax := strings.Index("XYZ", m[2])
+				atomOf[[2]int{v, ax}] = a.S
+				if ax == 2 {
+					dim = 3
+				}
+			}
+		}
+		vals := []float64{0, 1, 1.001}
+		nc := n * dim
+		coords := make([]float64, nc)
+		bad, cases := "", 0
+		var rec func(i int)
+		rec = func(i int) {
+			if bad != "" {
+				return
+			}
+			if i == nc {
+				for _, tol := range []float64{0, 0.01} {
+					env := map[string]float64{tolN: tol}
+					for v := 0; v < n; v++ {
+						for a := 0; a < dim; a++ {
+							if nm, ok := atomOf[[2]int{v, a}]; ok {
+								env[nm] = coords[v*dim+a]
+							}
+						}
+					}
+					got, ok := evalFloat(t2, env)
+					if !ok {
+						bad = " the closed form cannot be evaluated: " + shortKey(t2.Key(), 120)
+						return
+					}
+					want := false
+					for v := 0; v < n; v++ {
+						for w := v + 1; w < n; w++ {
+							same := true
+							for a := 0; a < dim; a++ {
+								if math.Abs(coords[v*dim+a]-coords[w*dim+a]) > tol {
+									same = false
+								}
+							}
+							want = want || same
+						}
+					}
+					cases++
+					if (got != 0) != want {
+						bad = fmt.Sprintf(" vertices %v with tolerance %g: Degenerate is %v;", coords, tol, got != 0)
+						return
+					}
+				}
+				return
+			}
+			for _, v := range vals {
+				coords[i] = v
+				rec(i + 1)
+			}
+		}
+		rec(0)
+		r.check(rule, key, fn.Pos(), bad == "", fmt.Sprintf("Degenerate ⇔ some two of the %d vertices coincide within the tolerance on every axis (comparison written out: %d assignments evaluated);%s", n, cases, bad))
+		return
+	}
 	pairOf := map[string][2]int{}
 	vertexIdx := func(a *Term) int {
 		// agg(t[i].X, t[i].Y, ...) or agg(a[i].X, ...)
